@@ -21,6 +21,7 @@ TRUSTED_BASE = [
     'Lean 4.33 kernel (thorough tier: also leanchecker on the compiled Props module)',
     'axioms allowed: propext, Classical.choice, Quot.sound (audited by #print axioms on every listed theorem; no native_decide/bv_decide/sorry)',
     'harness/translate.py (tables -> Lean literals), validated each run by the dump-tables round trip',
+    'harness/translate_logic.py + lean/SshAudit/Model/Py.lean (Python functions -> Lean definitions, for the functions a plugin lists in GEN_LOGIC): the translator and the Python semantics of its primitives are trusted, not validated',
     'correspondence harness: adapters, generators, fakenet, Lean driver printing; the tie between hand-written model logic and code is differential testing bounded by generator coverage',
     'CPython built-ins/stdlib behaviour (struct, io.BytesIO, re, json, hashlib, socket) is modelled, not verified',
 ]
@@ -232,6 +233,82 @@ def audit_theorems(module, namespace, theorems, build):
             res[t]['ok'] = True
             res[t]['why'] = 'kernel-checked'
     return res
+
+
+def audit_file_directly(module, namespace, theorems):
+    """Like audit_theorems for a module that does not build as a whole: elaborates a copy of the source followed by `#print axioms` of each
+    theorem, so that one failing theorem does not take the others of the file with it (a failed proof shows as an error inside the theorem's
+    lines, or as the axiom the elaborator puts in its place)."""
+    res = {t: {'ok': False, 'axioms': None, 'why': 'not checked'} for t in theorems}
+    spans, src = theorem_lines(module)
+    names = [t for t in theorems if t in spans]
+    for t in theorems:
+        if t not in spans:
+            res[t]['why'] = 'theorem missing from ' + module
+    tmp = os.path.join(LEAN, '.lake', 'audit_direct_%s_%d.lean' % (module.split('.')[-1], os.getpid()))
+    with open(tmp, 'w') as f:
+        f.write(src + '\n' + ''.join('#print axioms %s.%s\n' % (namespace, t) for t in names))
+    try:
+        rc, out = sh(['lake', 'env', 'lean', tmp], cwd=LEAN, timeout=1500)
+    finally:
+        os.unlink(tmp)
+    errs = [(int(m.group(1)), m.group(2)) for m in re.finditer(re.escape(os.path.basename(tmp)) + r':(\d+):\d+: error[^:]*:([^\n]*)', out)]
+    first = min(a for a, _ in spans.values()) if spans else 0
+    for t in names:
+        a, b = spans[t]
+        mine = [e for e in errs if a <= e[0] <= b]
+        full = '%s.%s' % (namespace, t)
+        m = re.search(r"'%s' depends on axioms: \[([^\]]*)\]" % re.escape(full), out)
+        m2 = re.search(r"'%s' does not depend on any axioms" % re.escape(full), out)
+        if mine:
+            res[t]['why'] = 'proof fails: ' + mine[0][1].strip()[:200]
+        elif [e for e in errs if e[0] < first]:
+            res[t]['why'] = 'the file does not elaborate: ' + [e for e in errs if e[0] < first][0][1].strip()[:200]
+        elif m or m2:
+            ax = [x.strip() for x in m.group(1).replace('\n', ' ').split(',') if x.strip()] if m else []
+            res[t]['axioms'] = ax
+            bad = [x for x in ax if x not in ALLOWED_AXIOMS]
+            if bad:
+                res[t]['why'] = 'depends on a statement that no longer checks (%s)' % ', '.join(bad)
+            else:
+                res[t]['ok'] = True
+                res[t]['why'] = 'kernel-checked'
+        else:
+            res[t]['why'] = 'no #print axioms answer: ' + out[-300:]
+    return res
+
+
+def gen_logic_audit(names):
+    """The regenerated-logic tie of a plugin that declares GEN_LOGIC = [function names of harness/translate_logic.py]: regenerate
+    lean/SshAudit/Gen/Logic*.lean from the source, build the theorem file(s) of the units concerned (Props/GenLogic.lean, Props/GenLogicCrc.lean)
+    and audit `<name>_eq_model` of each name.  Returns ({'GenLogic.<name>_eq_model': {'ok', 'axioms', 'why'}}, info of the translator)."""
+    out = {}
+    rc, txt = sh([sys.executable, os.path.join(HERE, 'translate_logic.py')], timeout=120)
+    try:
+        info = json.loads(txt.strip().splitlines()[-1])
+    except Exception:
+        info = None
+    if rc != 0 or not info or not info.get('ok'):
+        for n in names:
+            out['GenLogic.%s_eq_model' % n] = {'ok': False, 'axioms': None, 'why': 'logic translator failed: ' + txt[-300:]}
+        return out, {'ok': False, 'log': txt[-600:]}
+    by_unit = {}
+    for n in names:
+        by_unit.setdefault(info['units'].get(n, 'Logic'), []).append(n)
+    for unit, ns in sorted(by_unit.items()):
+        module = 'SshAudit.Props.Gen' + unit
+        ths = [n + '_eq_model' for n in ns]
+        b = lake_build([module])
+        res = audit_theorems(module, 'SshAudit.GenLogic', ths, b)
+        if not b['ok']:
+            # one theorem of the file that no longer checks must not take the others (other properties) with it
+            res = audit_file_directly(module, 'SshAudit.GenLogic', ths)
+        for n in ns:
+            r = res[n + '_eq_model']
+            if n in info['untranslatable']:
+                r = {'ok': False, 'axioms': None, 'why': 'the function is no longer in the translatable subset: ' + info['untranslatable'][n]}
+            out['GenLogic.%s_eq_model' % n] = r
+    return out, info
 
 
 def run_driver(lines, timeout=900):
